@@ -4,20 +4,21 @@
 # harness points at that worktree, so the sweep never touches /repo or /verif/evidence.  One result file per mutant.
 set -u
 out=$1; shift
+sd=${SEEDED_DIR:-/verif/seeded}
 mkdir -p "$out"
 base=/tmp/mutsweep.$$; wt=$base/repo; vf=$base/verif
 git -C /repo worktree remove --force $wt >/dev/null 2>&1; rm -rf $base; mkdir -p $base
 git -C /repo worktree add --detach $wt HEAD >/dev/null 2>&1 || { echo "worktree failed"; exit 2; }
 rsync -a --exclude build --exclude replays --exclude .git /verif/ $vf/
 sed -i "s#=> /repo#=> $wt#" $vf/harness/go.mod
-ids="$@"; [ -z "$ids" ] && ids=$(ls /verif/seeded)
+ids="$@"; [ -z "$ids" ] && ids=$(ls $sd)
 for id in $ids; do
-  p=/verif/seeded/$id/patch.diff; [ -f $p ] || p=/verif/seeded/$id/patch_rebased_on_hooks.diff
+  p=$sd/$id/patch.diff; [ -f $p ] || p=$sd/$id/patch_rebased_on_hooks.diff
   [ -f $p ] || continue
   prop=${id%%-*}
   git -C $wt checkout -q -- . ; git -C $wt clean -qfd
   if ! git -C $wt apply $p 2>/dev/null; then echo "$id PATCH-DOES-NOT-APPLY" | tee $out/$id.txt; continue; fi
-  checks="$prop"; [ -f /verif/seeded/$id/also_checks ] && checks="$prop $(cat /verif/seeded/$id/also_checks)"
+  checks="$prop"; [ -f $sd/$id/also_checks ] && checks="$prop $(cat $sd/$id/also_checks)"
   : > $out/$id.txt
   for c in $checks; do
     [ -f $vf/lib/props/$c.py ] || { echo "$id $c NO-CHECK" >> $out/$id.txt; continue; }
